@@ -70,6 +70,26 @@ pub(crate) struct SyncState {
     claimed_twice: bool,
 }
 
+#[cfg(feature = "verif")]
+impl SyncTable {
+    /// Keys whose claim is still owned by a thread. At a quiescent point (no query
+    /// running on any handle) this must be empty; stale `Transferred` entries are
+    /// legitimate leftovers and are reported separately.
+    pub(crate) fn verif_entries(&self) -> (Vec<Id>, Vec<Id>) {
+        let mut owned = Vec::new();
+        let mut transferred = Vec::new();
+        for shard in self.shards.iter() {
+            for state in shard.syncs.lock().iter() {
+                match state.id {
+                    SyncOwner::Thread(_) => owned.push(state.key),
+                    SyncOwner::Transferred => transferred.push(state.key),
+                }
+            }
+        }
+        (owned, transferred)
+    }
+}
+
 impl SyncTable {
     pub(crate) fn new(ingredient: IngredientIndex) -> Self {
         let shard_count = max_parallelism().next_power_of_two().max(2);
@@ -161,6 +181,11 @@ impl SyncTable {
                     is_transfer_target: false,
                     claimed_twice: false,
                 });
+                #[cfg(feature = "verif")]
+                crate::verif::trace(|| crate::verif::DgOp::Claim {
+                    key: DatabaseKeyIndex::new(self.ingredient, key_index),
+                    reclaim: false,
+                });
                 ClaimResult::Claimed(ClaimGuard {
                     key_index,
                     zalsa,
@@ -244,6 +269,11 @@ impl SyncTable {
 
                 *id = SyncOwner::Thread(thread_id);
                 *claimed_twice = true;
+                #[cfg(feature = "verif")]
+                crate::verif::trace(|| crate::verif::DgOp::Claim {
+                    key: database_key_index,
+                    reclaim: true,
+                });
 
                 Ok(ClaimResult::Claimed(ClaimGuard {
                     key_index,
@@ -266,6 +296,11 @@ impl SyncTable {
                     is_transfer_target: false,
                     claimed_twice: false,
                 };
+                #[cfg(feature = "verif")]
+                crate::verif::trace(|| crate::verif::DgOp::Claim {
+                    key: database_key_index,
+                    reclaim: true,
+                });
                 Ok(ClaimResult::Claimed(ClaimGuard {
                     key_index,
                     zalsa,
@@ -382,6 +417,8 @@ impl<'me> ClaimGuard<'me> {
     #[cold]
     #[inline(never)]
     fn release_panicking(&self) {
+        #[cfg(feature = "verif")]
+        self.verif_before_release(true);
         let hash = self.hash();
         let mut syncs = self.shard.syncs.lock();
         let state = syncs
@@ -509,7 +546,18 @@ impl<'me> ClaimGuard<'me> {
         refetch
     }
 
+    #[cfg(feature = "verif")]
+    fn verif_before_release(&self, panicking: bool) {
+        crate::verif::failpoint(crate::verif::Site::BeforeClaimRelease);
+        crate::verif::trace(|| crate::verif::DgOp::ReleaseClaim {
+            key: self.database_key_index(),
+            panicking,
+        });
+    }
+
     fn drop_impl(&mut self) -> bool {
+        #[cfg(feature = "verif")]
+        self.verif_before_release(false);
         match self.mode {
             ReleaseMode::Default => {
                 let hash = self.hash();
